@@ -1,4 +1,6 @@
 import UgoVerif.Proofs.OpsOrder
+import UgoVerif.Spec.OperatorsDoc
+import UgoVerif.Gen.Unary
 /-
   C15 — operators obey their algebraic laws and the documented numeric semantics.
 
@@ -10,7 +12,7 @@ import UgoVerif.Proofs.OpsOrder
 -/
 set_option linter.unusedSimpArgs false
 namespace UgoVerif.Props.C15
-open UgoVerif UgoVerif.Go UgoVerif.Gen UgoVerif.Model UgoVerif.Proofs
+open UgoVerif UgoVerif.Go UgoVerif.Gen UgoVerif.Model UgoVerif.Proofs UgoVerif.Spec.OperatorsDoc
 
 /-- `a == b` gives the same answer as `b == a`, for all (well-formed) values, nested
     arbitrarily deep. -/
@@ -44,7 +46,7 @@ theorem trichotomy (F : FloatOps) (S : ObjOps) (hF : FloatOps.ConvNoNaN F) (a b 
   rcases b with _ | b | b | b | b | (_ | _) | b | b | b | b | ⟨tn', i'⟩ <;>
     simp [cmp, binaryOp, ugo_cells, valEqual, notNaN] at h1 h2 ha hb ⊢
   all_goals (try subst h1) ; (try subst h2)
-  all_goals try (first | exact slt_trich _ _ | exact ult_trich _ _ | exact bytes_trich _ _ | exact slt_trich' _ _ | exact ult_trich' _ _ | exact bytes_trich' _ _ | exact f_trich _ _ (by simp_all [hF _, nan_one, nan_zero]) (by simp_all [hF _, nan_one, nan_zero]) | (simp [exactlyOne]; done))
+  all_goals try (first | exact slt_trich _ _ | exact ult_trich _ _ | exact bytes_trich _ _ | exact slt_trich' _ _ | exact ult_trich' _ _ | exact bytes_trich' _ _ | exact f_trich _ _ (by simp_all [hF _, nan_one, nan_zero]) (by simp_all [hF _, nan_one, nan_zero]) | exact f_trich' _ _ (by simp_all [hF _, nan_one, nan_zero]) (by simp_all [hF _, nan_one, nan_zero]) | (simp [exactlyOne]; done))
 
 set_option maxHeartbeats 2000000 in
 /-- `a <= b` means `a < b` or `a == b` -/
@@ -55,7 +57,7 @@ theorem le_iff_lt_or_eq (F : FloatOps) (S : ObjOps) (a b : Val) (le lt : Bool)
   rcases b with _ | b | b | b | b | (_ | _) | b | b | b | b | ⟨tn', i'⟩ <;>
     simp [cmp, binaryOp, ugo_cells, valEqual] at h1 h2 ⊢
   all_goals (try subst h1) ; (try subst h2)
-  all_goals try (first | exact sle_eq _ _ | exact ule_eq _ _ | exact fle_eq _ _ | exact bytesLe_eq _ _ | exact sle_eq' _ _ | exact ule_eq' _ _ | exact bytesLe_eq' _ _ | (simp; done))
+  all_goals try (first | exact sle_eq _ _ | exact ule_eq _ _ | exact fle_eq _ _ | exact fle_eq' _ _ | exact bytesLe_eq _ _ | exact sle_eq' _ _ | exact ule_eq' _ _ | exact bytesLe_eq' _ _ | (simp; done))
 
 set_option maxHeartbeats 2000000 in
 /-- `a < b` equals `b > a` -/
@@ -66,5 +68,53 @@ theorem lt_flip (F : FloatOps) (S : ObjOps) (a b : Val) (r r' : Bool)
     simp [cmp, binaryOp, ugo_cells] at h1 h2 ⊢
   all_goals (try subst h1) ; (try subst h2)
   all_goals try (first | rfl | exact bytesLt_flip _ _ | (simp; done))
+
+/-! ### the documented numeric semantics (docs/operators.md written down in Spec/OperatorsDoc.lean) -/
+
+@[simp] theorem classify_ok (v : Val) : classify (.ok v) = .value v := rfl
+@[simp] theorem classify_zd : classify (.err .zeroDivision) = .zeroDivision := rfl
+@[simp] theorem classify_ot (a b c : String) : classify (.err (.operandType a b c)) = .typeError := rfl
+@[simp] theorem classify_te (m : String) : classify (.err (.typeErr m)) = .typeError := rfl
+
+set_option maxHeartbeats 4000000 in
+/-- Arithmetic, bitwise and shift operators on int, uint, float, char and bool operands (all 25
+    ordered kind pairs x 11 operators, all operand values): the regenerated operator cells return
+    exactly the result of the Go operation after the documented operand conversion, and where
+    the document has no result — division or remainder by zero, a negative shift count, operand
+    kinds the table does not list — they return ZeroDivisionError resp. TypeError, never a
+    panic and never another value. -/
+theorem arith_matches_doc (F : FloatOps) (S : ObjOps) (tok : Tok) (a b : Val) (d : Doc)
+    (h : docArith F tok a b = some d) : classify (binaryOp F S tok a b) = d := by
+  rcases a with _ | a | a | a | a | (_ | _) | a | a | a | a | ⟨tn, i⟩ <;>
+  rcases b with _ | b | b | b | b | (_ | _) | b | b | b | b | ⟨tn', i'⟩ <;>
+  cases tok <;> simp [docArith, isArith, kindOf, common, bothChar] at h <;> subst h <;>
+  simp [binaryOp, ugo_cells, quoS, remS, quoU, remU, shlS, shrSS, shlU, shrUU, signedOp, unsignedOp, floatOp,
+    toInt, toUint, toFloat, toChar, BitVec.slt_zero_eq_msb] <;>
+  (try (split <;> simp_all [Bind.bind, Res.bind]))
+
+/-- the statement above is not vacuous: the document covers every arithmetic operator on every
+    pair of numeric operands -/
+theorem docArith_total (F : FloatOps) (tok : Tok) (a b : Val) (ht : isArith tok = true)
+    (ha : (kindOf a).isSome) (hb : (kindOf b).isSome) : (docArith F tok a b).isSome := by
+  rcases a with _ | a | a | a | a | (_ | _) | a | a | a | a | ⟨tn, i⟩ <;> simp [kindOf] at ha <;>
+  rcases b with _ | b | b | b | b | (_ | _) | b | b | b | b | ⟨tn', i'⟩ <;> simp [kindOf] at hb <;>
+  cases tok <;> simp [isArith] at ht <;> simp [docArith, isArith, kindOf, common, bothChar]
+
+theorem not_eq_allOnes_xor (x : BitVec 64) : ~~~x = BitVec.allOnes 64 ^^^ x := by
+  rw [BitVec.xor_comm]; exact (BitVec.xor_allOnes).symm ▸ rfl
+
+/-- unary `+ - ^` (vm.go xOpUnary, regenerated): `0 + x`, `0 - x`, `m ^ x` with m all ones / -1,
+    bool as int 1 or 0, TypeError for every other operand type -/
+theorem unary_matches_doc (F : FloatOps) (isFalsy : Val → Bool) (tok : Tok) (v : Val) (d : Doc)
+    (h : docUnary F tok v = some d) : classify (xOpUnary F isFalsy tok v) = d := by
+  rcases v with _ | a | a | a | a | (_ | _) | a | a | a | a | ⟨tn, i⟩ <;>
+  cases tok <;> simp [docUnary] at h <;> subst h <;>
+  simp [xOpUnary, not_eq_allOnes_xor] <;> (try decide)
+
+/-- examples: `true + 1.5` is evaluated as float, `'a' * 2` is a TypeError, `1 % 0` is ZeroDivisionError -/
+example (F : FloatOps) : docArith F .Add (.bool true) (.float 0x3FF8000000000000#64)
+    = some (.value (.float (F.add 0x3FF0000000000000#64 0x3FF8000000000000#64))) := by rfl
+example (F : FloatOps) : docArith F .Mul (.char 97#32) (.int 2#64) = some .typeError := by rfl
+example (F : FloatOps) : docArith F .Rem (.int 1#64) (.int 0#64) = some .zeroDivision := by rfl
 
 end UgoVerif.Props.C15
